@@ -179,6 +179,23 @@ def register_commute(reg):
     k.ens("partial-move-preserves-rows",
           lambda c: with_X(c, lambda me, cur, C, X, f, s, d: z3.Implies(z3.And(z3.Not(d), f != smt.NONE),
                                                                         V.sem(me, V.sem(s, V.sem(f, X))) == V.sem(me, V.sem(cur, X)))))
+    def second_local(c):
+        """For a projection P whose moved part is the projection Q: the operation left behind looks only at columns Q keeps, as far
+        as P can tell -- for EVERY row sequence Y between Q and the target's columns (this is what lets backtracking insert Q, or
+        anything at least as wide, further upstream)."""
+        cur_op, C, _X, first, second, done = parts(c)
+        me = c.self.z
+        A = c.ex.spec.A
+        Pc, Qc = A("Projection", "columns")(me), A("Projection", "columns")(first)
+        isp = smt.typ(me) == c.ex.types.cid(c.ex.repo.cls("Projection"))
+
+        def inner(Y):
+            return B(z3.Implies(z3.And(isp, first != smt.NONE, z3.IsSubset(Qc, V.rcols(Y.z)), z3.IsSubset(V.rcols(Y.z), C)),
+                                V.s_proj(Pc, V.sem(second, Y.z)) == V.s_proj(Pc, V.sem(second, V.s_proj(Qc, Y.z)))))
+
+        return c.forall([(TRS, "Y")], inner, patterns=lambda Y: [V.sem(second, Y.z)])
+
+    k.ens("what-a-moved-projection-leaves-behind-only-looks-at-the-columns-it-keeps", second_local)
     k.ens("only-projections-move-partially",
           lambda c: no_X(c, lambda me, cur, C, f, s, d: z3.Implies(smt.typ(me) != c.ex.types.cid(c.ex.repo.cls("Projection")), z3.Or(f == smt.NONE, d))))
     k.ens("moved-operations-supported-where-the-originals-are",
